@@ -23,6 +23,8 @@ def plan(tier, seed):
             j = ch("C13", G, hname, t, fun2, shape=dict(rows=sz), env=dict(VERIF_ROWS=sz))
             j["name"] += "[%s]" % sz
             jobs.append(j)
+    from . import pageloop
+    jobs += pageloop.jobs("C13", tier, seed)
     extra = dict(
         explanation="CrossHair (z3) over the real ParquetFile._column_filter on vector shims (row values, constants "
                     "and operators symbolic) against the documented semantics (flat list = AND, list of lists = OR of "
